@@ -1,0 +1,43 @@
+//go:build verif
+
+// Verification hooks for C06/C07 (build tag "verif"): read-only views of the
+// session cache and a virtual-time setter. This file adds code only; nothing
+// here is compiled without the tag.
+package security
+
+import "time"
+
+// VerifShiftExpiration moves the entry's expiry by d (virtual time: shifting
+// every entry by -d is the same as advancing the clock by d). A zero
+// expiration ("never expires") stays zero.
+func (s *SessionEntry) VerifShiftExpiration(d time.Duration) {
+	s.mu.Lock()
+	defer s.mu.Unlock()
+	if s.expiration.IsZero() {
+		return
+	}
+	s.expiration = s.expiration.Add(d)
+}
+
+// VerifCommandMap returns a copy of the cache's command map ({tag,addr,<cmd>} -> session id).
+func (c *SessionCache) VerifCommandMap() map[string]string {
+	c.mu.RLock()
+	defer c.mu.RUnlock()
+	out := make(map[string]string, len(c.commandMap))
+	for k, v := range c.commandMap {
+		out[k] = v
+	}
+	return out
+}
+
+// VerifSessionKeys returns the keys of the cache's session map together with
+// the entry stored under each (the key and entry.ID() should coincide).
+func (c *SessionCache) VerifSessionKeys() map[string]*SessionEntry {
+	c.mu.RLock()
+	defer c.mu.RUnlock()
+	out := make(map[string]*SessionEntry, len(c.sessions))
+	for k, v := range c.sessions {
+		out[k] = v
+	}
+	return out
+}
